@@ -249,6 +249,7 @@ def run(ctx):
     rule_type_table(ctx)
     rule_remap_mask(ctx)
     rule_cost_cascade(ctx)
+    rule_drop_table(ctx)
 
 
 def rule_remap_mask(ctx):
@@ -376,6 +377,36 @@ def rule_cost_cascade(ctx):
         ctx.fail("drop_elements_at_buses: cost drop not found")
 
 
+def rule_drop_table(ctx):
+    R = "DROP-TABLE"
+    ctx.rule(R, "every call of drop_trafos whose index comes from a table variable (net[elm], net[element_type]) that may be 'trafo3w' passes "
+                "table=<that variable>: drop_trafos defaults to the two-winding table, so a three-winding index would drop the wrong rows")
+    n = 0
+    for mn in ("pandapower.toolbox.grid_modification", "pandapower.grid_equivalents.auxiliary", "pandapower.toolbox.data_modification"):
+        if not ctx.repo.has_module(mn):
+            continue
+        for fi in ctx.repo.module(mn).functions.values():
+            for c in ast.walk(fi.node):
+                if isinstance(c, ast.Call) and (dotted(c.func) or "").endswith("drop_trafos") and len(c.args) >= 2:
+                    n += 1
+                    kw = {k.arg: ast.unparse(k.value) for k in c.keywords if k.arg}
+                    tabvars = {x.slice.id for x in ast.walk(c.args[1]) if isinstance(x, ast.Subscript) and isinstance(x.value, ast.Name)
+                               and x.value.id == "net" and isinstance(x.slice, ast.Name)}
+                    # index variables named by an explicit table are fine; an index taken from net[<var>] needs table=<var>
+                    need = next(iter(tabvars)) if tabvars else None
+                    if need is None and "table" not in kw:
+                        # the enclosing condition tells whether trafo3w can reach this call
+                        need = "?" if "trafo3w" in ast.unparse(fi.node) and "table" not in kw and any(
+                            isinstance(p, ast.If) and "'trafo' in" in ast.unparse(p.test).replace('"', "'") and any(c is y for y in ast.walk(p)) for p in ast.walk(fi.node)) else None
+                    ok = need is None or kw.get("table") == need or (need == "?" and "table" in kw)
+                    ctx.ob(R, f"{mn}::{fi.qualname}::drop_trafos@{c.lineno - fi.node.lineno}", ok,
+                           f"drop_trafos(..., table={kw.get('table')})" if ok else
+                           f": the index comes from net[{need}] but no table is passed - for trafo3w the two-winding transformers "
+                           "with these indices are dropped", fi.loc(c))
+    if n < 4:
+        ctx.fail(f"DROP-TABLE: only {n} drop_trafos calls found (confirmed: 6)")
+
+
 def rule_type_table(ctx):
     from rules import _lints
     R = "TYPE-TABLE"
@@ -410,6 +441,7 @@ def variants(repo):
             "    m_type = net.measurement.element_type == element_type\n    affected = net.measurement[m_type & (net.measurement.element.isin(old_indices))]\n"), None),
         V("switch references selected by the lookup keys", dm, replace_once("(net.switch.element.isin(old_indices))]", "(net.switch.element.isin(lookup.keys()))]"), "REMAP-MASK"),
         V("costs dropped for the bus column only", gm, in_function("drop_elements_at_buses", lambda s: s.replace('                for cost_elm in ["poly_cost", "pwl_cost"]:\n                    net[cost_elm] = net[cost_elm].drop(net[cost_elm].index[\n                        (net[cost_elm].et == element_type) &\n                        (net[cost_elm].element.isin(eid))])', '                if column == "bus":\n                    for cost_elm in ["poly_cost", "pwl_cost"]:\n                        net[cost_elm] = net[cost_elm].drop(net[cost_elm].index[\n                            (net[cost_elm].et == element_type) &\n                            (net[cost_elm].element.isin(eid))])', 1)), "COST-CASCADE"),
+        V("inner trafo3w dropped from the trafo table", gm, in_function("_inner_branches", replace_once("drop_trafos(net, net[elm].index[inner], table=elm)", "drop_trafos(net, net[elm].index[inner])")), "DROP-TABLE"),
         V("t3 code lost", dm, replace_once('{"line": "l", "trafo": "t", "trafo3w": "t3"}[element_type]', 'element_type[0]'), "switch.et=t3"),
         V("trafo3w switches skipped", dm, replace_once('    if element_type in ["line", "trafo", "trafo3w"]:\n        switch_et', '    if element_type in ["line", "trafo"]:\n        switch_et'), "switch.et=t3"),
         V("measurement restricted again", dm, replace_once('    affected = net.measurement[(net.measurement.element_type == element_type) &\n                               (net.measurement.element.isin(old_indices))]\n    if len(affected):\n        net.measurement.loc[affected.index, "element"] = get_indices(affected.element, lookup)\n',
